@@ -17,6 +17,9 @@ type loopSummary struct {
 	checked  int  // worlds examined
 	seqVals  []ssa.Value
 	problems []string
+	lawSig   map[string]map[string]bool
+	lawN     map[string]int
+	lawFirst map[string]string
 }
 
 type needLoop struct {
@@ -29,7 +32,14 @@ func loopID(fn *ssa.Function, l *loop) string {
 	if o := fn.Origin(); o != nil {
 		f = o
 	}
-	return fmt.Sprintf("%s#b%d", f.String(), l.header.Index)
+	// ordinal among the function's loops plus the loop variables' names: stable under edits elsewhere
+	ord := 0
+	for i, o := range findLoops(fn) {
+		if o.header == l.header {
+			ord = i + 1
+		}
+	}
+	return fmt.Sprintf("%s#loop%d%s", f.String(), ord, loopDesc(l))
 }
 
 // seqOperands: SSA values indexed by the loop's index phi.
